@@ -22,8 +22,10 @@
 (*        ("state restored to best" on a reject)                           *)
 (*   bk   best cost = current cost after an accepted step                  *)
 (*   dp   rms of the correction <= configured parameter tolerance          *)
-(*   dx   rms change of the error terms since the previous accepted        *)
-(*        iteration <= configured error-term tolerance (-1: no previous)   *)
+(*   dx   rms difference between this iteration's error terms and those of *)
+(*        the previous accepted iteration (= the best point when this      *)
+(*        iteration was rejected) <= configured error-term tolerance       *)
+(*        (-1: no previous)                                                *)
 (*   rec  (Params) |p - p_true| <= 100 p_tol + floor for every unknown,    *)
 (*        through vnacal_get_parameter_value                               *)
 (*   rec  (Apply) corrected S of an independent device within              *)
@@ -116,12 +118,12 @@ TLMIter ==
     (* accept: the step starts from the new best; reject: from the restored best *)
     /\ Explain(ev.sb = 1, <<l, "LMIter", "sb", "trial = best - correction">>)
     /\ Explain(m >= Floor, <<l, "LMIter", "mg", "abstract multiplier >= floor">>)
-    /\ Explain(ev.cv = 1 => ev.b = 1, <<l, "LMIter", "cv", "converged only on an accepted step">>)
     /\ Explain(ev.cv = 1 => ev.dp = 1, <<l, "LMIter", "dp", "p tolerance met">>)
     /\ Explain(ev.cv = 1 => ev.dx # 0, <<l, "LMIter", "dx", "et tolerance met">>)
     (* all guards were explained above: now the LMLoop step itself *)
     /\ IF ev.cv = 1
-       THEN Converge(c, m, ev.dp = 1, ev.dx # 0)
+       THEN IF ev.b = 1 THEN Converge(c, m, ev.dp = 1, ev.dx # 0)
+            ELSE ConvergeAtBest(m, ev.dp = 1, ev.dx # 0)
        ELSE IF iter < L
             THEN IF ev.b = 1 THEN Accept(L, c, m) ELSE Reject(L, m)
             ELSE LimitHit(L, ev.b = 1, c, m)
